@@ -142,11 +142,12 @@ func (m *Model) negamax(ctx context.Context, depth int, root bool) ref.Score {
 		}
 	}
 	m.tick()
-	explore := search.FullExploration
+	// no selection configured: EVERY legal move is explored (the implementation's own notion of
+	// "full exploration" is deliberately not consulted - it is part of what is being checked)
+	pred := func(board.Move) bool { return true }
 	if m.Cfg.Explore != nil {
-		explore = m.Cfg.Explore
+		_, pred = m.Cfg.Explore(ctx, m.B)
 	}
-	_, pred := explore(ctx, m.B)
 	legal := m.G.Cur().Legal()
 	if len(legal) == 0 {
 		if m.G.Cur().InCheck(m.G.Cur().White) {
